@@ -899,9 +899,23 @@ Proof.
   destruct (pl_max p); cbn; [apply N.eqb_refl | reflexivity].
 Qed.
 
+Lemma entry_insert_In x e l : In x (entry_insert e l) <-> x = e \/ In x l.
+Proof.
+  induction l as [|y l IH]; cbn [entry_insert].
+  - simpl. intuition.
+  - destruct (entry_leb e y); simpl; [intuition|]. rewrite IH. intuition.
+Qed.
+
+(** Sorting the report changes neither its entries nor their multiplicity of occurrence as a set. *)
+Lemma report_sort_In x l : In x (report_sort l) <-> In x l.
+Proof.
+  induction l as [|a l IH]; [reflexivity|].
+  cbn [report_sort fold_right]. fold (report_sort l). rewrite entry_insert_In, IH. simpl. intuition.
+Qed.
+
 Lemma suggest_inv chk roas held limit seen s :
   suggest chk roas held limit seen = Some s ->
-  exists es, analyse chk roas held limit seen = Some es /\ suggest_of_entries es = Some s.
+  exists es, analyse chk roas held limit seen = Some es /\ suggest_of_entries (report_sort es) = Some s.
 Proof. unfold suggest. destruct (analyse chk roas held limit seen) as [es|]; [|discriminate]. intros H. exists es; auto. Qed.
 
 (** A ROA proposed as redundant is included by another held ROA, which matches whatever it matches. *)
@@ -940,18 +954,18 @@ Theorem suggest_keeps_validating chk roas held limit store s :
 Proof.
   intros H Hsc Hst Hwf r a Ha Hi Hm.
   destruct (suggest_inv _ _ _ _ _ _ H) as (es & Han & Hs).
-  unfold suggest_of_entries in Hs. destruct (forallb kind_consistent es); [|discriminate].
+  unfold suggest_of_entries, suggestion_with in Hs. destruct (forallb kind_consistent (report_sort es)); [|discriminate].
   inversion Hs; subst s; clear Hs. cbn [s_stale s_disallowing s_as0_redundant s_redundant].
   assert (Hwa : wf_prefix (a_pfx a)) by (apply Hst; assumption).
   assert (Hwh : wf_roas (roas_held roas held limit)) by (intros x Hx; apply Hwf; eapply roas_held_incl; exact Hx).
   (* common: an entry for [r] with a categorised state *)
-  assert (Common : forall e, In e es -> e_subj e = SRoa r -> e_state e <> RoaNotHeld ->
+  assert (Common : forall e, In e (report_sort es) -> e_subj e = SRoa r -> e_state e <> RoaNotHeld ->
             In a (e_authorizes e)
             /\ In r (filter (is_fam (p_fam (r_pfx r))) (roas_held roas held limit))
             /\ categorise_roa chk r (validated_in store (fam_scope (p_fam (r_pfx r)) (scope_of held limit))
                                                  (filter (is_fam (p_fam (r_pfx r))) (roas_held roas held limit)))
                               (filter (is_fam (p_fam (r_pfx r))) (roas_held roas held limit)) = Some e).
-  { intros e He Hsub Hn. split.
+  { intros e He Hsub Hn. apply (proj1 (report_sort_In _ _)) in He. split.
     - apply (authorizes_exact _ _ _ _ _ _ _ _ Han Hsc Hst Hwf He Hsub Hn). auto.
     - pose proof (analyse_roa_entry _ _ _ _ _ _ _ _ Han He Hsub Hn) as X. cbv zeta in X. exact X. }
   repeat split.
@@ -1044,12 +1058,10 @@ Proof.
   unfold kind_consistent. rewrite Hs. destruct (e_state e); cbn in *; congruence.
 Qed.
 
-Theorem suggest_total chk roas held limit seen es :
-  analyse chk roas held limit seen = Some es -> suggest_of_entries es <> None.
+Lemma analyse_kind_consistent chk roas held limit seen es e :
+  analyse chk roas held limit seen = Some es -> In e es -> kind_consistent e = true.
 Proof.
-  intros H. unfold suggest_of_entries.
-  assert (K : forallb kind_consistent es = true); [|rewrite K; discriminate].
-  apply forallb_forall. intros e He. destruct seen as [store|].
+  intros H He. destruct seen as [store|].
   - pose proof (analyse_entry_cases _ _ _ _ _ _ _ H He) as X. cbv zeta in X.
     destruct X as [(r & _ & ->) | [(f & r & _ & E) | (f & a & _ & ->)]].
     + reflexivity.
@@ -1059,39 +1071,51 @@ Proof.
       apply in_map_iff in He; destruct He as (r & <- & _); reflexivity.
 Qed.
 
-(** * Following the suggestion does not always keep valid announcements valid (candidate findings F17e, F17b)
+Theorem suggest_total chk roas held limit seen es :
+  analyse chk roas held limit seen = Some es -> suggest_of_entries (report_sort es) <> None.
+Proof.
+  intros H. unfold suggest_of_entries.
+  assert (K : forallb kind_consistent (report_sort es) = true); [|rewrite K; discriminate].
+  apply forallb_forall. intros e He. apply (proj1 (report_sort_In _ _)) in He. eapply analyse_kind_consistent; eassumption.
+Qed.
 
-    The literal strong reading of "suggestions never remove a ROA that validates an observed announcement":
-    after the suggested updates every announcement that is valid now is still valid. *)
-Definition suggest_preserves_validity_full : Prop :=
+(** * Following the suggestion: F17e (repaired in /repo by 992adfab) and F17b
+
+    The strong reading of "suggestions never remove a ROA that validates an observed announcement": after the
+    suggested updates every announcement that is valid now is still valid. It was false for the code before
+    992adfab, which is pinned here as [suggest_pinned] with its refutation as a regression witness; for the repaired
+    code it is proved below ([suggest_preserves_validity]) for every announcement that is not validated through
+    None/Some(len) twin payloads (F17b, [twin_match]), and refuted without that hypothesis. *)
+Definition suggest_pinned_preserves_validity : Prop :=
   forall roas held limit store s,
-    suggest true roas held limit (Some store) = Some s ->
+    suggest_pinned true roas held limit (Some store) = Some s ->
     wf_scope (scope_of held limit) -> wf_store store -> wf_roas roas ->
     forall a, In a store -> in_scope (scope_of held limit) a -> a_asn a <> 0 ->
       rov (map vrp_of (roas_held roas held limit)) (route_of a) = Valid ->
       rov (map vrp_of_payload (config_after (roas_held roas held limit) s)) (route_of a) = Valid.
 
 (** F17e: [10.0.0.0/22-24 => 64496] is "too permissive", [10.0.0.0/24-24 => 64496] is "redundant" (included by
-    the former); the announcement [10.0.0.0/24 => 64496] is authorised by both entries, so it is left out of the
-    replacement of the first ("authorised by another entry") while the second is removed as redundant. *)
+    the former); the announcement [10.0.0.0/24 => 64496] is authorised by both entries. Before the repair it was
+    left out of the replacement of the first ("authorised by another entry") while the second is removed as
+    redundant. *)
 Definition f17e_roas : list croa :=
   [mkRoa (mkPl 64496 (mkP V4 167772160 22) (Some 24)) 0; mkRoa (mkPl 64496 (mkP V4 167772160 24) (Some 24)) 0].
 Definition f17e_store : list ann := [mkAnn 64496 (mkP V4 167772160 24)].
 Definition f17e_held : resources := mkRes [(13292279957849158729038070602803445760, 14621507953634074601941877663083790335)] []
                                           [mkP V4 167772160 8] [].     (* 10.0.0.0/8 *)
 
-Lemma f17e_facts :
-  exists s, suggest true f17e_roas f17e_held None (Some f17e_store) = Some s
+Lemma f17e_pinned_facts :
+  exists s, suggest_pinned true f17e_roas f17e_held None (Some f17e_store) = Some s
             /\ map fst (s_too_permissive s) = [mkRoa (mkPl 64496 (mkP V4 167772160 22) (Some 24)) 0]
             /\ map snd (s_too_permissive s) = [[]]
             /\ s_redundant s = [mkRoa (mkPl 64496 (mkP V4 167772160 24) (Some 24)) 0]
             /\ config_after (roas_held f17e_roas f17e_held None) s = [].
 Proof. eexists. split; [vm_compute; reflexivity|]. vm_compute. repeat split. Qed.
 
-Theorem suggest_preserves_validity_refuted : ~ suggest_preserves_validity_full.
+Theorem suggest_preserves_validity_refuted : ~ suggest_pinned_preserves_validity.
 Proof.
   intros H.
-  destruct f17e_facts as (s & Hs & _).
+  destruct f17e_pinned_facts as (s & Hs & _).
   specialize (H f17e_roas f17e_held None f17e_store s Hs).
   assert (W1 : wf_scope (scope_of f17e_held None)).
   { split; [intros p [<-|[]]; split; reflexivity | intros p []]. }
@@ -1104,14 +1128,48 @@ Proof.
   vm_compute in Hs. inversion Hs; subst s. vm_compute in H. discriminate.
 Qed.
 
+(** The repaired code on the same input: the announcement is part of the replacement and stays valid. *)
+Lemma f17e_repaired :
+  exists s, suggest true f17e_roas f17e_held None (Some f17e_store) = Some s
+            /\ map snd (s_too_permissive s) = [[mkPl 64496 (mkP V4 167772160 24) None]]
+            /\ rov (map vrp_of_payload (config_after (roas_held f17e_roas f17e_held None) s))
+                   (route_of (mkAnn 64496 (mkP V4 167772160 24))) = Valid.
+Proof. eexists. split; [vm_compute; reflexivity|]. split; reflexivity. Qed.
+
 (** F17b: two payloads that differ only in [max_length = None] versus [Some (prefix length)] are each reported
-    redundant because of the other (the payload comparison of [categorise_roa] is the derived equality). *)
+    redundant because of the other (the payload comparison of [categorise_roa] is the derived equality), so
+    without the hypothesis [twin_match = false] the strong reading is false for the repaired code as well. *)
 Definition f17b_roas : list croa :=
   [mkRoa (mkPl 64496 (mkP V4 167772160 24) None) 0; mkRoa (mkPl 64496 (mkP V4 167772160 24) (Some 24)) 0].
 
 Lemma f17b_twins_both_redundant :
-  exists s, suggest true f17b_roas f17e_held None (Some f17e_store) = Some s /\ s_redundant s = f17b_roas /\ s_keep s = [].
-Proof. eexists. split; [vm_compute; reflexivity|]. split; reflexivity. Qed.
+  exists s, suggest true f17b_roas f17e_held None (Some f17e_store) = Some s /\ s_redundant s = f17b_roas /\ s_keep s = []
+            /\ config_after (roas_held f17b_roas f17e_held None) s = []
+            /\ twin_match (roas_held f17b_roas f17e_held None) (mkAnn 64496 (mkP V4 167772160 24)) = true.
+Proof. eexists. split; [vm_compute; reflexivity|]. repeat split. Qed.
+
+Definition suggest_preserves_validity_unconditional : Prop :=
+  forall roas held limit store s,
+    suggest true roas held limit (Some store) = Some s ->
+    wf_scope (scope_of held limit) -> wf_store store -> wf_roas roas ->
+    forall a, In a store -> in_scope (scope_of held limit) a ->
+      rov (map vrp_of (roas_held roas held limit)) (route_of a) = Valid ->
+      rov (map vrp_of_payload (config_after (roas_held roas held limit) s)) (route_of a) = Valid.
+
+Theorem suggest_preserves_validity_unconditional_refuted : ~ suggest_preserves_validity_unconditional.
+Proof.
+  intros H.
+  destruct f17b_twins_both_redundant as (s & Hs & _ & _ & Hc & _).
+  specialize (H f17b_roas f17e_held None f17e_store s Hs).
+  assert (W1 : wf_scope (scope_of f17e_held None)).
+  { split; [intros p [<-|[]]; split; reflexivity | intros p []]. }
+  assert (W2 : wf_store f17e_store) by (intros a [<-|[]]; reflexivity).
+  assert (W3 : wf_roas f17b_roas) by (intros r [<-|[<-|[]]]; reflexivity).
+  specialize (H W1 W2 W3 (mkAnn 64496 (mkP V4 167772160 24)) (or_introl eq_refl)).
+  assert (I : in_scope (scope_of f17e_held None) (mkAnn 64496 (mkP V4 167772160 24))).
+  { exists (mkP V4 167772160 8). split; [left; reflexivity | reflexivity]. }
+  specialize (H I eq_refl). rewrite Hc in H. vm_compute in H. discriminate.
+Qed.
 
 (** F17c (found by this model, fixed in /repo by 2496aeb4 "check that a ROA prefix is held within its own address
     family"): the held / scope test used to ignore the address family, so that with only the IPv6 block
@@ -1237,13 +1295,8 @@ Proof.
 Qed.
 
 
-(** * The strongest restriction of the strong reading that holds
 
-    If every held ROA has an explicit maximum length (as every ROA configured through a krill CA has,
-    src/server/ca/certauth.rs:2222) and no ROA that validates the announcement is reported "too permissive",
-    then a ROA validating the announcement is in the [keep] list and survives the suggested updates. *)
-Definition explicit_max (roas : list croa) : Prop := forall r, In r roas -> pl_max (r_pl r) <> None.
-
+(** * The repaired [suggest] keeps every valid announcement valid (no None/Some(len) twins) *)
 Lemma map_opt_In_rev {A B} (f : A -> option B) l : forall ys x,
   map_opt f l = Some ys -> In x l -> exists y, In y ys /\ f x = Some y.
 Proof.
@@ -1291,23 +1344,106 @@ Proof.
   induction l as [|x l IH]; intros H; [destruct H|]. cbn [fold_right]. destruct H as [<-|H]; [lia|]. specialize (IH H). lia.
 Qed.
 
-Theorem suggest_preserves_validity_restricted chk roas held limit store s :
+Lemma optN_eqb_eq a b : optN_eqb a b = true -> a = b.
+Proof. destruct a, b; cbn; try discriminate; auto. intros H. apply N.eqb_eq in H. congruence. Qed.
+
+Lemma payload_eqb_eq p q : payload_eqb p q = true -> p = q.
+Proof.
+  unfold payload_eqb. rewrite !andb_true_iff, N.eqb_eq. intros [[E1 E2] E3].
+  apply prefix_eqb_eq in E2. apply optN_eqb_eq in E3. destruct p, q; cbn in *; congruence.
+Qed.
+
+Lemma ann_eqb_eq a b : ann_eqb a b = true -> a = b.
+Proof.
+  unfold ann_eqb. rewrite andb_true_iff, N.eqb_eq. intros [E1 E2]. apply prefix_eqb_eq in E2.
+  destruct a, b; cbn in *; congruence.
+Qed.
+
+Lemma ann_eqb_refl a : ann_eqb a a = true.
+Proof. unfold ann_eqb. rewrite N.eqb_refl. apply prefix_eqb_eq. reflexivity. Qed.
+
+(** ** The [too_permissive] loop *)
+Lemma already_suggested_app acc x pl :
+  already_suggested (acc ++ [x]) pl = already_suggested acc pl || existsb (payload_eqb pl) (snd x).
+Proof. unfold already_suggested. rewrite existsb_app. cbn [existsb]. rewrite orb_false_r. reflexivity. Qed.
+
+Lemma tp_loop_mono E todo : forall acc pl,
+  already_suggested acc pl = true -> already_suggested (too_permissive_loop E todo acc) pl = true.
+Proof.
+  induction todo as [|h todo IH]; intros acc pl H; [exact H|]. cbn [too_permissive_loop].
+  destruct (st_is RoaTooPermissive (e_state h)); [|apply IH; assumption].
+  destruct (e_subj h); [|apply IH; assumption].
+  apply IH. rewrite already_suggested_app, H. reflexivity.
+Qed.
+
+Lemma tp_loop_adds E todo : forall acc e r a,
+  In e todo -> e_state e = RoaTooPermissive -> e_subj e = SRoa r -> In a (e_authorizes e) ->
+  kept_elsewhere E e a = false ->
+  already_suggested (too_permissive_loop E todo acc) (payload_of_ann a) = true.
+Proof.
+  induction todo as [|h todo IH]; intros acc e r a He Hst Hsub Ha Hk; [destruct He|].
+  cbn [too_permissive_loop]. destruct He as [->|He].
+  - rewrite Hst, Hsub. replace (st_is RoaTooPermissive RoaTooPermissive) with true by reflexivity.
+    apply tp_loop_mono. rewrite already_suggested_app.
+    destruct (already_suggested acc (payload_of_ann a)) eqn:Eacc; [reflexivity|]. cbn [orb snd].
+    apply existsb_exists. exists (payload_of_ann a). split; [|apply payload_eqb_refl].
+    unfold replace_with. apply filter_In. split; [|rewrite Eacc; reflexivity].
+    apply in_map. apply filter_In. split; [assumption | rewrite Hk; reflexivity].
+  - destruct (st_is RoaTooPermissive (e_state h)); [|eapply IH; eassumption].
+    destruct (e_subj h); eapply IH; eassumption.
+Qed.
+
+Lemma tp_loop_fst E todo : forall acc r,
+  In r (map fst (too_permissive_loop E todo acc)) ->
+  In r (map fst acc) \/ exists e, In e todo /\ e_state e = RoaTooPermissive /\ e_subj e = SRoa r.
+Proof.
+  induction todo as [|h todo IH]; intros acc r H; [left; exact H|]. cbn [too_permissive_loop] in H.
+  destruct (st_is RoaTooPermissive (e_state h)) eqn:Est.
+  - destruct (e_subj h) as [r'|a'] eqn:Esub.
+    + apply IH in H. destruct H as [H|(e & He & H)]; [|right; exists e; split; [right; assumption | assumption]].
+      rewrite map_app in H. apply in_app_or in H. destruct H as [H|[<-|[]]]; [left; assumption|].
+      right. exists h. apply st_is_eq in Est. split; [left; reflexivity|]. split; [congruence | exact Esub].
+    + apply IH in H. destruct H as [H|(e & He & H)]; [left; assumption | right; exists e; split; [right; assumption | assumption]].
+  - apply IH in H. destruct H as [H|(e & He & H)]; [left; assumption | right; exists e; split; [right; assumption | assumption]].
+Qed.
+
+Lemma already_suggested_In acc pl : already_suggested acc pl = true -> In pl (flat_map snd acc).
+Proof.
+  unfold already_suggested. intros H. apply existsb_exists in H. destruct H as (x & Hx & H).
+  apply existsb_exists in H. destruct H as (pl' & Hpl & E). apply payload_eqb_eq in E. subst pl'.
+  apply in_flat_map. exists x; auto.
+Qed.
+
+Lemma rov_valid_intro l pl rt : In pl l -> matched (vrp_of_payload pl) rt = true -> rov (map vrp_of_payload l) rt = Valid.
+Proof.
+  intros Hin Hm. unfold rov.
+  replace (existsb (fun v => matched v rt) (map vrp_of_payload l)) with true; [reflexivity|].
+  symmetry. rewrite existsb_map. apply existsb_exists. exists pl; auto.
+Qed.
+
+(** ** The theorem *)
+Theorem suggest_preserves_validity chk roas held limit store s :
   suggest chk roas held limit (Some store) = Some s ->
   wf_scope (scope_of held limit) -> wf_store store -> wf_roas roas ->
   let hr := roas_held roas held limit in
-  explicit_max hr ->
   forall a, In a store -> in_scope (scope_of held limit) a ->
-    rov (map vrp_of hr) (route_of a) = Valid ->
-    (forall r, In r (map fst (s_too_permissive s)) -> matched (vrp_of r) (route_of a) = false) ->
-    (exists r, In r (s_keep s) /\ matched (vrp_of r) (route_of a) = true)
-    /\ rov (map vrp_of_payload (config_after hr s)) (route_of a) = Valid.
+    rov (map vrp_of hr) (route_of a) = Valid -> twin_match hr a = false ->
+    rov (map vrp_of_payload (config_after hr s)) (route_of a) = Valid.
 Proof.
-  intros Hsug Hsc Hst Hwf hr Hex a Ha Hin Hval Htp.
+  intros Hsug Hsc Hst Hwf hr a Ha Hin Hval Htw.
   destruct (suggest_inv _ _ _ _ _ _ Hsug) as (es & Han & Hs).
-  unfold suggest_of_entries in Hs. destruct (forallb kind_consistent es); [|discriminate].
+  unfold suggest_of_entries, suggestion_with in Hs. destruct (forallb kind_consistent (report_sort es)); [|discriminate].
   inversion Hs; subst s; clear Hs.
+  set (es' := report_sort es) in *.
   assert (Hwa : wf_prefix (a_pfx a)) by (apply Hst; assumption).
   assert (Hwh : wf_roas hr) by (intros x Hx; apply Hwf; eapply roas_held_incl; exact Hx).
+  (* no twins among the ROAs that match [a] *)
+  assert (NoTwin : forall r o, In r hr -> In o hr -> matched (vrp_of r) (route_of a) = true ->
+            payload_norm_eqb (r_pl r) (r_pl o) = true -> payload_eqb (r_pl r) (r_pl o) = true).
+  { intros r o Hr Ho Hm Hn. destruct (payload_eqb (r_pl r) (r_pl o)) eqn:E; [reflexivity|]. exfalso.
+    assert (X : twin_match hr a = true); [|congruence].
+    unfold twin_match. apply existsb_exists. exists r. split; [assumption|]. rewrite Hm. cbn [andb].
+    apply existsb_exists. exists o. split; [assumption|]. rewrite Hn, E. reflexivity. }
   set (Mx := fold_right (fun x m => N.max (r_max x) m) 0 hr).
   (* 1. a matching ROA that is not reported redundant *)
   assert (Chain : forall n r, N.to_nat (p_len (r_pfx r) + (Mx - r_max r)) = n -> In r hr ->
@@ -1323,9 +1459,7 @@ Proof.
     pose proof (categorise_spec _ _ _ _ _ E) as (Esub & _ & _ & _ & _ & Hred & _).
     destruct (e_state e) eqn:Est;
       try (exists r, e; repeat split; auto; rewrite Est; discriminate).
-    (* redundant: follow the including ROA *)
     specialize (Hred eq_refl).
-    assert (Hrf : In r (filter (is_fam (p_fam (r_pfx r))) hr)) by (apply filter_In; split; [assumption | apply fam_eqb_refl]).
     destruct (cat_others_including r (filter (is_fam (p_fam (r_pfx r))) hr)) as [|pl pls] eqn:Eo; [contradiction|].
     assert (Hpl : In pl (cat_others_including r (filter (is_fam (p_fam (r_pfx r))) hr))) by (rewrite Eo; left; reflexivity).
     unfold cat_others_including, cat_others_covering in Hpl.
@@ -1340,104 +1474,145 @@ Proof.
       rewrite !andb_true_iff, negb_true_iff, N.leb_le, N.eqb_eq, N.eqb_neq in *.
       destruct Hm as [[[Hc Hlen] Hasn] Hz].
       repeat split; [eapply covered_pfx_trans; eassumption | lia | congruence | congruence]. }
-    (* strictly better *)
     assert (Hlt : (N.to_nat (p_len (r_pfx o) + (Mx - r_max o)) < n)%nat).
     { pose proof (fold_max_ge hr o Hoh) as Bo. pose proof (fold_max_ge hr r Hr) as Br. fold Mx in Bo, Br.
       destruct (N.eq_dec (p_len (r_pfx o)) (p_len (r_pfx r))) as [El|]; [|lia].
       destruct (N.eq_dec (r_max o) (r_max r)) as [Em|]; [|lia]. exfalso.
-      (* same length, covering: same prefix; same origin; explicit maximum lengths: same payload *)
-      assert (Hcr : covers (r_pfx r) (r_pfx o) = true).
-      { pose proof (covers_fam _ _ Hcov) as Hf'.
-        rewrite covers_covered_pfx in * by (apply Hwh; assumption).
-        unfold covered_pfx, first_bits in *. rewrite !andb_true_iff, !fam_eqb_eq, !N.leb_le, !N.eqb_eq in *.
-        destruct Hcov as [[_ _] Heq]. repeat split; [congruence | lia |]. rewrite <- Hf', <- El. congruence. }
+      (* same length and covering: same prefix; same origin and effective maximum length: a twin *)
       assert (Epf : r_pfx o = r_pfx r).
       { pose proof (covers_fam _ _ Hcov) as Hf'.
-        pose proof Hcov as C1. pose proof Hcr as C2.
-        rewrite covers_covered_pfx in C1, C2 by (apply Hwh; assumption).
-        unfold covered_pfx, first_bits in C1, C2. rewrite !andb_true_iff, !N.leb_le, !N.eqb_eq in C1, C2.
-        destruct C1 as [_ E1]. 
+        pose proof Hcov as C1. rewrite covers_covered_pfx in C1 by (apply Hwh; assumption).
+        unfold covered_pfx, first_bits in C1. rewrite !andb_true_iff, !N.leb_le, !N.eqb_eq in C1. destruct C1 as [_ E1].
         destruct (wf_prefix_parts _ (Hwh o Hoh)) as (_ & _ & No). destruct (wf_prefix_parts _ (Hwh r Hr)) as (_ & _ & Nr).
         unfold host_bits in No, Nr.
         destruct (r_pfx o) as [fo ao lo] eqn:Eqo, (r_pfx r) as [fr' ar lr'] eqn:Eqr. cbn [p_fam p_addr p_len] in *.
         subst fr' lr'. f_equal. rewrite No, Nr, E1. reflexivity. }
-      pose proof (Hex o Hoh) as Xo. pose proof (Hex r Hr) as Xr.
-      unfold r_max, eff_max, r_pfx, r_asn in *.
-      destruct (r_pl o) as [ao po mo], (r_pl r) as [ar pr mr]. cbn [pl_asn pl_pfx pl_max] in *.
-      destruct mo as [mo|]; [|contradiction]. destruct mr as [mr|]; [|contradiction]. subst.
-      unfold payload_eqb in Hneq. cbn [pl_asn pl_pfx pl_max optN_eqb] in Hneq.
-      rewrite !N.eqb_refl in Hneq. replace (prefix_eqb pr pr) with true in Hneq by (symmetry; apply prefix_eqb_eq; reflexivity).
-      discriminate. }
+      assert (Hnorm : payload_norm_eqb (r_pl r) (r_pl o) = true).
+      { unfold payload_norm_eqb. fold (r_asn r) (r_asn o) (r_pfx r) (r_pfx o) (r_max r) (r_max o).
+        rewrite Ea, Epf, Em, !N.eqb_refl. replace (prefix_eqb (r_pfx r) (r_pfx r)) with true by (symmetry; apply prefix_eqb_eq; reflexivity).
+        reflexivity. }
+      rewrite (NoTwin r o Hr Hoh Hm Hnorm) in Hneq. discriminate. }
     exact (IHn _ Hlt o eq_refl Hoh Hmo). }
-  (* 2. start from any matching ROA *)
+  (* 2. a ROA that is kept (state RoaSeen) and matches [a] survives the updates *)
+  assert (Survive : forall r e, In r hr -> matched (vrp_of r) (route_of a) = true -> In e es -> e_subj e = SRoa r ->
+            e_state e = RoaSeen ->
+            categorise_roa chk r (validated_in store (fam_scope (p_fam (r_pfx r)) (scope_of held limit))
+                                               (filter (is_fam (p_fam (r_pfx r))) hr))
+                           (filter (is_fam (p_fam (r_pfx r))) hr) = Some e ->
+            rov (map vrp_of_payload (config_after hr (suggestion_with (too_permissive_loop es' es' []) es'))) (route_of a) = Valid).
+  { intros r e Hr Hm He Esub Est E.
+    apply (rov_valid_intro _ (r_pl r)); [|exact Hm].
+    unfold config_after, updates_of_suggestion, suggestion_with.
+    cbn [s_stale s_too_permissive s_as0_redundant s_redundant s_not_found s_invalid_asn s_invalid_length].
+    apply in_or_app. left. apply filter_In. split; [apply in_map; assumption|].
+    apply negb_true_iff. apply existsb_false. intros pl Hpl.
+    destruct (payload_norm_eqb (r_pl r) pl) eqn:Enorm; [exfalso | reflexivity].
+    assert (Removed : exists r2 e2, r_pl r2 = pl /\ In e2 es' /\ e_subj e2 = SRoa r2 /\ e_state e2 <> RoaSeen /\ e_state e2 <> RoaNotHeld).
+    { rewrite !in_app_iff in Hpl. destruct Hpl as [Hpl|[Hpl|[Hpl|Hpl]]].
+      - apply in_map_iff in Hpl. destruct Hpl as (r2 & <- & Hr2). apply In_roas_in in Hr2.
+        destruct Hr2 as (e2 & He2 & S2 & Sub2). apply st_is_eq in S2. exists r2, e2. repeat split; auto; rewrite <- S2; discriminate.
+      - apply in_map_iff in Hpl. destruct Hpl as ([r2 new] & <- & Hr2). cbn [fst].
+        assert (Hr2' : In r2 (map fst (too_permissive_loop es' es' []))) by (apply in_map_iff; exists (r2, new); auto).
+        apply tp_loop_fst in Hr2'. destruct Hr2' as [[]|(e2 & He2 & S2 & Sub2)].
+        exists r2, e2. repeat split; auto; rewrite S2; discriminate.
+      - apply in_map_iff in Hpl. destruct Hpl as (r2 & <- & Hr2). apply In_roas_in in Hr2.
+        destruct Hr2 as (e2 & He2 & S2 & Sub2). apply st_is_eq in S2. exists r2, e2. repeat split; auto; rewrite <- S2; discriminate.
+      - apply in_map_iff in Hpl. destruct Hpl as (r2 & <- & Hr2). apply In_roas_in in Hr2.
+        destruct Hr2 as (e2 & He2 & S2 & Sub2). apply st_is_eq in S2. exists r2, e2. repeat split; auto; rewrite <- S2; discriminate. }
+    destruct Removed as (r2 & e2 & <- & He2 & Sub2 & Hns & Hnn).
+    apply (proj1 (report_sort_In _ _)) in He2.
+    pose proof (analyse_roa_entry _ _ _ _ _ _ _ _ Han He2 Sub2 Hnn) as X. cbv zeta in X. destruct X as [Hr2 E2].
+    destruct (is_fam_In _ _ _ Hr2) as [Hr2h _]. fold hr in Hr2h, E2.
+    assert (Epl : r_pl r = r_pl r2) by (apply payload_eqb_eq; apply NoTwin; assumption).
+    assert (Epf : r_pfx r2 = r_pfx r) by (unfold r_pfx; rewrite Epl; reflexivity).
+    rewrite Epf in E2.
+    pose proof (categorise_state_payload _ _ _ _ _ _ _ Epl E E2) as Eqs. congruence. }
+  (* 3. start from any matching ROA *)
   assert (HM : exists r, In r hr /\ matched (vrp_of r) (route_of a) = true).
   { unfold rov in Hval. destruct (existsb (fun v => matched v (route_of a)) (map vrp_of hr)) eqn:Ex;
       [|destruct (existsb (fun v => covered v (route_of a)) (map vrp_of hr)); discriminate].
     rewrite existsb_map in Ex. apply existsb_exists in Ex. destruct Ex as (r & Hr & Hm). exists r; auto. }
   destruct HM as (r0 & Hr0 & Hm0).
   destruct (Chain _ r0 eq_refl Hr0 Hm0) as (r & e & Hr & Hm & He & Esub & Hnred & E).
-  (* its state is Seen *)
   assert (Hn : e_state e <> RoaNotHeld) by (pose proof (categorise_spec _ _ _ _ _ E) as X; tauto).
   assert (Hau : In a (e_authorizes e)) by (apply (authorizes_exact _ _ _ _ _ _ _ _ Han Hsc Hst Hwf He Esub Hn); auto).
   pose proof (categorise_spec _ _ _ _ _ E) as (_ & _ & _ & Has0 & _ & _ & Hnil & Hnh & Hni & Hrs).
   assert (Hnz : r_asn r <> 0).
   { intros Ez. unfold matched, vrp_of in Hm. cbn [vrp_asn] in Hm. rewrite Ez, andb_false_r in Hm. discriminate. }
-  assert (Est : e_state e = RoaSeen).
-  { destruct (e_state e) eqn:Es; try reflexivity; try (exfalso; cbn in Hrs; discriminate); try congruence.
+  assert (Est : e_state e = RoaSeen \/ e_state e = RoaTooPermissive).
+  { destruct (e_state e) eqn:Es; auto; try (exfalso; cbn in Hrs; discriminate); try congruence.
     - exfalso. rewrite Hnil in Hau by (left; reflexivity). destruct Hau.
     - exfalso. rewrite Hnil in Hau by (right; reflexivity). destruct Hau.
-    - exfalso. assert (X : matched (vrp_of r) (route_of a) = false).
-      { apply Htp. cbn [s_too_permissive]. apply in_map_iff.
-        exists (r, replace_with es e). split; [reflexivity|]. apply in_flat_map. exists e. split; [assumption|].
-        rewrite Es, Esub. left; reflexivity. }
-      congruence.
     - exfalso. apply Hnz. apply Has0. left; reflexivity.
     - exfalso. apply Hnz. apply Has0. right; reflexivity. }
-  assert (Hkeep : In r (roas_in (fun s => st_is RoaSeen s || st_is RoaAs0 s || st_is RoaNoInfo s) es)).
-  { apply In_roas_in. exists e. rewrite Est. auto. }
-  split; [exists r; split; assumption|].
-  (* 3. it survives the updates *)
-  unfold rov. replace (existsb (fun v => matched v (route_of a)) (map vrp_of_payload (config_after hr _))) with true; [reflexivity|].
-  symmetry. rewrite existsb_map. apply existsb_exists. exists (r_pl r). split; [|exact Hm].
-  unfold config_after, updates_of_suggestion. cbn [s_stale s_too_permissive s_as0_redundant s_redundant s_not_found s_invalid_asn s_invalid_length].
-  apply in_or_app. left. apply filter_In. split; [apply in_map; assumption|].
-  apply negb_true_iff. apply existsb_false. intros pl Hpl.
-  destruct (payload_norm_eqb (r_pl r) pl) eqn:Enorm; [exfalso | reflexivity].
-  (* a removed ROA with the same normalised payload would have the same state *)
-  assert (Removed : exists r2 e2, r_pl r2 = pl /\ In e2 es /\ e_subj e2 = SRoa r2 /\ e_state e2 <> RoaSeen /\ e_state e2 <> RoaNotHeld).
-  { rewrite !in_app_iff in Hpl. destruct Hpl as [Hpl|[Hpl|[Hpl|Hpl]]].
-    - apply in_map_iff in Hpl. destruct Hpl as (r2 & <- & Hr2). apply In_roas_in in Hr2.
-      destruct Hr2 as (e2 & He2 & S2 & Sub2). apply st_is_eq in S2. exists r2, e2. repeat split; auto; rewrite <- S2; discriminate.
-    - apply in_map_iff in Hpl. destruct Hpl as ([r2 new] & <- & Hr2). apply in_flat_map in Hr2.
-      destruct Hr2 as (e2 & He2 & Hx). destruct (st_is RoaTooPermissive (e_state e2)) eqn:S2; [|destruct Hx].
-      apply st_is_eq in S2. destruct (e_subj e2) as [r2'|] eqn:Sub2; [|destruct Hx]. destruct Hx as [Hx|[]].
-      inversion Hx; subst r2'. exists r2, e2. cbn [fst]. repeat split; auto; rewrite <- S2; discriminate.
-    - apply in_map_iff in Hpl. destruct Hpl as (r2 & <- & Hr2). apply In_roas_in in Hr2.
-      destruct Hr2 as (e2 & He2 & S2 & Sub2). apply st_is_eq in S2. exists r2, e2. repeat split; auto; rewrite <- S2; discriminate.
-    - apply in_map_iff in Hpl. destruct Hpl as (r2 & <- & Hr2). apply In_roas_in in Hr2.
-      destruct Hr2 as (e2 & He2 & S2 & Sub2). apply st_is_eq in S2. exists r2, e2. repeat split; auto; rewrite <- S2; discriminate. }
-  destruct Removed as (r2 & e2 & <- & He2 & Sub2 & Hns & Hnn).
-  pose proof (analyse_roa_entry _ _ _ _ _ _ _ _ Han He2 Sub2 Hnn) as X. cbv zeta in X. destruct X as [Hr2 E2].
-  destruct (is_fam_In _ _ _ Hr2) as [Hr2h _]. fold hr in Hr2h, E2.
-  assert (Epl : r_pl r = r_pl r2).
-  { pose proof (Hex r Hr) as X1. pose proof (Hex r2 Hr2h) as X2.
-    unfold payload_norm_eqb, eff_max in Enorm. rewrite !andb_true_iff, !N.eqb_eq in Enorm. destruct Enorm as [[E1 E2'] E3].
-    apply prefix_eqb_eq in E2'.
-    destruct (r_pl r) as [a1 p1 m1], (r_pl r2) as [a2 p2 m2]. cbn [pl_asn pl_pfx pl_max] in *.
-    destruct m1; [|contradiction]. destruct m2; [|contradiction]. congruence. }
-  assert (Epf : r_pfx r2 = r_pfx r) by (unfold r_pfx; rewrite Epl; reflexivity).
-  rewrite Epf in E2.
-  pose proof (categorise_state_payload _ _ _ _ _ _ _ Epl E E2) as Eqs. congruence.
+  destruct Est as [Est|Est]; [eapply Survive; eassumption|].
+  (* too permissive: either a kept ROA authorises [a] as well, or [a] is part of a replacement *)
+  destruct (existsb (fun o => st_is RoaSeen (e_state o) && existsb (ann_eqb a) (e_authorizes o)) es') eqn:Ks.
+  - apply existsb_exists in Ks. destruct Ks as (o & Ho & Ko). apply andb_true_iff in Ko. destruct Ko as [So Ao].
+    apply st_is_eq in So. symmetry in So. apply existsb_exists in Ao. destruct Ao as (a' & Ha' & Eq). apply ann_eqb_eq in Eq. subst a'.
+    apply (proj1 (report_sort_In _ _)) in Ho.
+    pose proof (analyse_kind_consistent _ _ _ _ _ _ _ Han Ho) as Kc. unfold kind_consistent in Kc. rewrite So in Kc.
+    destruct (e_subj o) as [r'|] eqn:Subo; [|discriminate].
+    assert (Hno : e_state o <> RoaNotHeld) by (rewrite So; discriminate).
+    assert (Hm' : matched (vrp_of r') (route_of a) = true)
+      by (apply (authorizes_exact _ _ _ _ _ _ _ _ Han Hsc Hst Hwf Ho Subo Hno); assumption).
+    pose proof (analyse_roa_entry _ _ _ _ _ _ _ _ Han Ho Subo Hno) as X. cbv zeta in X. destruct X as [Hr' E'].
+    destruct (is_fam_In _ _ _ Hr') as [Hr'h _].
+    eapply (Survive r' o); eassumption.
+  - assert (Hk : kept_elsewhere es' e a = false).
+    { unfold kept_elsewhere. apply existsb_false. intros o Ho. rewrite existsb_false in Ks. specialize (Ks o Ho).
+      rewrite <- andb_assoc, Ks. apply andb_false_r. }
+    assert (He' : In e es') by (apply report_sort_In; assumption).
+    pose proof (tp_loop_adds es' es' [] e r a He' Est Esub Hau Hk) as Hadd.
+    apply already_suggested_In in Hadd.
+    apply (rov_valid_intro _ (payload_of_ann a)).
+    + unfold config_after, updates_of_suggestion, suggestion_with. cbn [s_too_permissive s_not_found s_invalid_asn s_invalid_length].
+      apply in_or_app. right. apply in_or_app. right. exact Hadd.
+    + unfold matched, covered, covered_pfx, vrp_of_payload, payload_of_ann, route_of, eff_max.
+      cbn [vrp_pfx vrp_max vrp_asn rt_pfx rt_asn pl_pfx pl_max pl_asn].
+      rewrite fam_eqb_refl, !N.leb_refl, !N.eqb_refl. cbn [andb].
+      unfold matched, vrp_of, route_of in Hm. cbn [vrp_asn rt_asn] in Hm.
+      rewrite !andb_true_iff, N.eqb_eq in Hm. destruct Hm as [[_ Ea] Hz]. rewrite Ea. exact Hz.
 Qed.
 
-Example suggest_preserves_validity_restricted_nonvacuous :
-  let roas := [mkRoa (mkPl 64496 (mkP V4 167772160 24) (Some 24)) 0; mkRoa (mkPl 64497 (mkP V4 167772160 16) (Some 16)) 0] in
-  let store := [ex_a1; mkAnn 64497 (mkP V4 167772160 16)] in
-  exists s, suggest true roas ex_held None (Some store) = Some s
-            /\ explicit_max (roas_held roas ex_held None)
-            /\ rov (map vrp_of (roas_held roas ex_held None)) (route_of ex_a1) = Valid
-            /\ s_too_permissive s = [] /\ length (s_keep s) = 2%nat.
+(** With explicit maximum lengths (what a krill CA stores) there are no twins. *)
+Definition explicit_maxb (roas : list croa) : bool :=
+  forallb (fun r => match pl_max (r_pl r) with Some _ => true | None => false end) roas.
+
+Lemma explicit_no_twins roas a : explicit_maxb roas = true -> twin_match roas a = false.
 Proof.
-  eexists. split; [vm_compute; reflexivity|]. split; [|split; [reflexivity | split; reflexivity]].
-  intros r Hr. vm_compute in Hr. destruct Hr as [<-|[<-|[]]]; discriminate.
+  intros H. unfold explicit_maxb in H. rewrite forallb_forall in H.
+  unfold twin_match. apply existsb_false. intros r Hr. destruct (matched (vrp_of r) (route_of a)); [|reflexivity]. cbn [andb].
+  apply existsb_false. intros o Ho. pose proof (H r Hr) as Xr. pose proof (H o Ho) as Xo.
+  destruct (payload_norm_eqb (r_pl r) (r_pl o)) eqn:En; [|reflexivity]. cbn [andb]. apply negb_false_iff.
+  unfold payload_norm_eqb, eff_max in En. unfold payload_eqb. rewrite !andb_true_iff in *. destruct En as [[E1 E2] E3].
+  destruct (pl_max (r_pl r)); [|discriminate]. destruct (pl_max (r_pl o)); [|discriminate]. cbn [optN_eqb]. auto.
+Qed.
+
+Theorem suggest_preserves_validity_explicit chk roas held limit store s :
+  suggest chk roas held limit (Some store) = Some s ->
+  wf_scope (scope_of held limit) -> wf_store store -> wf_roas roas ->
+  explicit_maxb (roas_held roas held limit) = true ->
+  forall a, In a store -> in_scope (scope_of held limit) a ->
+    rov (map vrp_of (roas_held roas held limit)) (route_of a) = Valid ->
+    rov (map vrp_of_payload (config_after (roas_held roas held limit) s)) (route_of a) = Valid.
+Proof.
+  intros H Hsc Hst Hwf Hex a Ha Hin Hv. eapply suggest_preserves_validity; eauto. apply explicit_no_twins; assumption.
+Qed.
+
+Example suggest_preserves_validity_nonvacuous :
+  let a := mkAnn 64496 (mkP V4 167772160 24) in
+  exists s, suggest true f17e_roas f17e_held None (Some f17e_store) = Some s
+            /\ wf_scope (scope_of f17e_held None) /\ wf_store f17e_store /\ wf_roas f17e_roas
+            /\ In a f17e_store /\ in_scope (scope_of f17e_held None) a
+            /\ rov (map vrp_of (roas_held f17e_roas f17e_held None)) (route_of a) = Valid
+            /\ twin_match (roas_held f17e_roas f17e_held None) a = false
+            /\ explicit_maxb (roas_held f17e_roas f17e_held None) = true
+            /\ length (s_too_permissive s) = 1%nat /\ length (s_redundant s) = 1%nat.
+Proof.
+  eexists. split; [vm_compute; reflexivity|].
+  split; [split; [intros p [<-|[]]; split; reflexivity | intros p []]|].
+  split; [intros x [<-|[]]; reflexivity|]. split; [intros r [<-|[<-|[]]]; reflexivity|].
+  split; [left; reflexivity|]. split; [exists (mkP V4 167772160 8); split; [left; reflexivity | reflexivity]|].
+  repeat split.
 Qed.
